@@ -12,6 +12,7 @@ import (
 	"runtime"
 	"strings"
 	"sync"
+	"sync/atomic"
 	"time"
 
 	"pgregory.net/rapid"
@@ -43,6 +44,29 @@ func (w *slowWriter) Write(b []byte) (int, error) {
 	runtime.Gosched()
 	runtime.Gosched()
 	return w.ResponseRecorder.Write(b)
+}
+
+// brokenWriter is the connection of a peer that went away: it takes the first few
+// bytes of the first Write and fails from then on (a short write with an error).
+type brokenWriter struct {
+	h     http.Header
+	after int
+	dead  bool
+}
+
+func (w *brokenWriter) Header() http.Header { return w.h }
+func (w *brokenWriter) WriteHeader(int)     {}
+func (w *brokenWriter) Write(b []byte) (int, error) {
+	runtime.Gosched()
+	if w.dead || len(b) <= w.after {
+		if !w.dead && len(b) <= w.after {
+			w.after -= len(b)
+			return len(b), nil
+		}
+		return 0, io.ErrClosedPipe
+	}
+	w.dead = true
+	return w.after, io.ErrClosedPipe
 }
 
 // plainReader implements io.ReadCloser and nothing else; it hands its content out in
@@ -94,6 +118,18 @@ type concurrentInst struct {
 
 var coldStarted = map[string]bool{}
 
+const unroutedTag = "~unrouted~"
+
+// unrouted sends a request that matches no route straight to the API value (whose
+// NotFoundHandler is left unset, as in most programs): the fallback path is shared by
+// all goroutines too. Only the race detector judges it.
+func (ci *concurrentInst) unrouted() {
+	req := httptest.NewRequest("GET", "http://h.example/~verif/~no/~such/~route/~at/~all/~1/~2/~3/~4/~5/~6", nil)
+	req.Header.Set("X-Verif-Tag", unroutedTag)
+	defer func() { _ = recover() }()
+	ci.h.ServeHTTP(httptest.NewRecorder(), req)
+}
+
 func (ci *concurrentInst) failTag(tag, msg string) {
 	// (cold-start phases: nothing is judged, and the harness must not synchronise the
 	// goroutines either - a mutex taken here would order their accesses and hide a race;
@@ -141,6 +177,11 @@ func newConcurrentInst(p *Pkg) *concurrentInst {
 				if r, ok := m.Call(nil)[0].Interface().(*http.Request); ok && r != nil {
 					tag = r.Header.Get("X-Verif-Tag")
 				}
+			}
+			if tag == unroutedTag {
+				// (a probe meant to match no route was dispatched after all: a very deep
+				// all-variable template; nothing to judge)
+				return []reflect.Value{AsIface(op.DefaultResponse(), op.ResponseIface)}
 			}
 			pl, ok := ci.plans.Load(tag)
 			if !ok {
@@ -382,6 +423,7 @@ func CheckC20(p *Pkg, e *Env, r *res.Result) {
 		}
 		base := "http://h.example" + escapedBase(p.BasePath) + "/"
 		var do func(*http.Request) (*http.Response, error)
+		var dropSeq int64
 		var srv *httptest.Server
 		if useServer {
 			srv = httptest.NewServer(ci.h)
@@ -397,6 +439,25 @@ func CheckC20(p *Pkg, e *Env, r *res.Result) {
 				req.Header.Set("X-Verif-Tag", req.Context().Value(tagKey{}).(string))
 				if req.Body == nil {
 					req.Body = http.NoBody
+				}
+				// every third request is also made by a peer that disconnects while the
+				// response is being written: what was meant for it must not reach anyone else
+				if n := atomic.AddInt64(&dropSeq, 1); n%3 == 0 {
+					var body []byte
+					if req.Body != http.NoBody {
+						body, _ = io.ReadAll(req.Body)
+						req.Body.Close()
+						req.Body = io.NopCloser(bytes.NewReader(body))
+					}
+					gone := req.Clone(req.Context())
+					gone.Body = http.NoBody
+					if body != nil {
+						gone.Body = io.NopCloser(bytes.NewReader(body))
+					}
+					func() {
+						defer func() { _ = recover() }() // a panic on a dead connection is C14's matter
+						ci.h.ServeHTTP(&brokenWriter{h: http.Header{}, after: int(n/3) % 4}, gone)
+					}()
 				}
 				rec := httptest.NewRecorder()
 				// the writer takes its time before it consumes what it is given (a slow
@@ -523,6 +584,7 @@ func CheckC20(p *Pkg, e *Env, r *res.Result) {
 				go func(seq []*plannedCall) {
 					defer cwg.Done()
 					<-cstart
+					ci.unrouted()
 					for _, pc := range seq {
 						callOne(pc)
 					}
@@ -571,9 +633,11 @@ func CheckC20(p *Pkg, e *Env, r *res.Result) {
 			go func(seq []*plannedCall) {
 				defer wg.Done()
 				<-start
+				ci.unrouted()
 				for _, pc := range seq {
 					callOne(pc)
 				}
+				ci.unrouted()
 			}(plans[g])
 		}
 		close(start)
@@ -675,6 +739,9 @@ func ColdStartC20(p *Pkg) {
 		go func(g int) {
 			defer wg.Done()
 			<-start
+			if g%2 == 1 {
+				cold.unrouted()
+			}
 			// (every goroutine starts at another operation: the first calls - and whatever
 			// they initialise - are spread over the goroutines)
 			for k := range p.Ops {
